@@ -78,6 +78,10 @@ func main() {
 		os.Exit(2)
 	}
 	initRunDir()
+	if *out != "" {
+		crumbPath = *out + ".current"
+		defer os.Remove(crumbPath)
+	}
 	rep := &Report{Property: *prop, Tier: *tier, Seed: *seed, Distribution: map[string]int{}, Extra: map[string]interface{}{}}
 	start := time.Now()
 	func() {
@@ -92,9 +96,25 @@ func main() {
 	} else {
 		must(os.WriteFile(*out, data, 0o644))
 	}
+	if crumbPath != "" {
+		os.Remove(crumbPath)
+	}
 	if len(rep.Divergences) > 0 || len(rep.Violations) > 0 {
 		os.Exit(1)
 	}
+}
+
+// crumbPath: where the scenario being executed is recorded, so that when the code under test kills
+// the process (a panic in one of its own goroutines cannot be recovered from outside) the check can
+// still name the input that did it.
+var crumbPath string
+
+func crumb(what string, detail interface{}) {
+	if crumbPath == "" {
+		return
+	}
+	data, _ := json.Marshal(map[string]interface{}{"what": what, "detail": detail})
+	os.WriteFile(crumbPath, data, 0o644)
 }
 
 func flagSet(name string) bool {
